@@ -124,6 +124,8 @@ class Interp:
         # the decision just taken was forced iff no alternative was queued for it
         ctx = self.ctx
         pend = self.explorer.pending
+        if not ctx.decisions:
+            return False
         alt = ctx.decisions[:-1] + [not ctx.decisions[-1]]
         return bool(pend) and pend[-1] == alt
 
@@ -964,6 +966,10 @@ class Interp:
         if any(_dec_name(d) in ('lru_cache', 'cache', 'cached_property') for d in getattr(f, 'decorators', []) or []):
             # a memoised function answers from its cache: its result is a function of the arguments only (and of
             # whatever the state was at the first call) - never of the current state
+            if f.cls is None and not getattr(f, 'closure', None):
+                # a memoised module-level function can only depend on its arguments and on module-level state, which the
+                # frame obligation (values.GLOBAL_WRITES) shows to be constant: the body is the function
+                return self.inline(f, args, kwargs, node)
             from .libops import _single_atom
             key = []
             for a in args[1:] if f.cls is not None else args:
